@@ -40,8 +40,8 @@ def main():
 
     broken = []  # obligations that no longer check
     # 1. translator
-    ok, msg = core.regenerate()
-    if not ok:
+    tstatus, msg = core.regenerate()
+    if tstatus == "fatal":
         broken.append({"obligation": "translator tools/gen_consts.py", "detail": msg})
     # 2. build (models first so that the correspondence can run even when a proof breaks)
     ok_models, log_models = core.coq_make(mod.MODEL_TARGETS)
@@ -51,6 +51,10 @@ def main():
     if not ok_props:
         broken.append({"obligation": "theorems of " + ",".join(mod.PROPS_TARGETS) + " (make)",
                        "detail": log_props[-3000:]})
+    if tstatus == "partial" and not (ok_models and ok_props):
+        # definitions the translator could no longer read were left out of Generated.v: that is why the
+        # build of this property stopped (a property whose files do not use them builds and is unaffected)
+        broken.append({"obligation": "translator tools/gen_consts.py", "detail": msg})
     # 3. assumptions
     thms, assum, alog = [], {}, ""
     discharged = 0
